@@ -75,9 +75,11 @@ class Event:
                 self.rate=rate
         else:
             n_eq=0
+            member_rate=None
             for transition in transition_list:
                 if transition.equation is not None:
                     n_eq+=1
+                    member_rate=transition.equation
             if n_eq>1:
                 raise InputStateError("Zero or one equations needed, but ", n_eq, " provided")
             elif (n_eq==1) and (rate is not None):
@@ -85,7 +87,7 @@ class Event:
             elif (n_eq==0) and (rate is None):
                 raise InputStateError("Rate cannot be found in Event or Transitions")
             else:
-                self.rate=rate
+                self.rate=rate if rate is not None else member_rate
                 
         self.transition_list=transition_list
             
